@@ -350,3 +350,84 @@ Proof.
 Qed.
 
 End Sched.
+
+(* ------------------------------------------------------------------ the whole program: prelude + scope *)
+Section Top.
+Context {A : Arith}.
+Notation T := (T A).
+
+Lemma par_program_ok (v w : list T) t s0 : par_program v w t = Ok s0 ->
+  1 <= t /\ length v = length w /\ s0 = sched_init t.
+Proof.
+  unfold par_program. destruct (Nat.eqb_spec (length v) (length w)) as [E|]; [|discriminate].
+  destruct (Nat.eqb_spec t 0) as [|Hne]; [discriminate|]. intros H; injection H as <-. repeat split; auto. lia.
+Qed.
+
+(* the prelude panics exactly as pardot does: size guard first, then the division by the worker count *)
+Lemma par_program_panic (v w : list T) t k : par_program v w t = Panic k -> pardot t v w = Panic k.
+Proof.
+  unfold par_program, pardot. destruct (length v =? length w); [|intros H; now injection H as <-].
+  destruct (t =? 0); [intros H; now injection H as <-|discriminate].
+Qed.
+
+Lemma sched_deterministic_lemma (v w : list T) t s0 n s :
+  par_program v w t = Ok s0 -> steps v w t n s0 s -> terminal v w t s ->
+  n = length v + 3 * t + 2 /\ main s = MRet (pardot t v w).
+Proof.
+  intros HP HS HT. apply par_program_ok in HP as (Ht & Hl & ->).
+  apply steps_exec in HS as (sch & <- & HE). now apply sched_deterministic_exec.
+Qed.
+
+Lemma sched_terminates_lemma (v w : list T) t s0 n s :
+  par_program v w t = Ok s0 -> steps v w t n s0 s ->
+  n <= length v + 3 * t + 2 /\ exists m s', steps v w t m s s' /\ terminal v w t s'.
+Proof.
+  intros HP HS. apply par_program_ok in HP as (Ht & Hl & ->).
+  apply steps_exec in HS as (sch & <- & HE). split; [now apply (sched_bounded_exec v w t Ht Hl sch s)|].
+  destruct (exec_Inv v w t Ht Hl sch _ s (Inv_init v w t Ht Hl) HE) as [HI _].
+  destruct (Inv_extends v w t Ht Hl s HI) as (sch' & s' & HE' & HT & _).
+  exists (length sch'), s'. split; [|exact HT]. apply steps_exec. now exists sch'.
+Qed.
+
+Lemma sched_no_deadlock_lemma (v w : list T) t s0 n s :
+  par_program v w t = Ok s0 -> steps v w t n s0 s ->
+  (exists s', step v w t s s') \/ main s = MRet (pardot t v w).
+Proof.
+  intros HP HS. apply par_program_ok in HP as (Ht & Hl & ->).
+  apply steps_exec in HS as (sch & _ & HE).
+  destruct (sched_no_deadlock_exec v w t Ht Hl sch s HE) as [(th & s' & E)|E]; [left|now right].
+  exists s', th. exact E.
+Qed.
+
+Lemma sched_no_panic_lemma (v w : list T) t s0 n s :
+  par_program v w t = Ok s0 -> steps v w t n s0 s ->
+  (forall k, nth_error (ws s) k <> Some WPanicked) /\ (forall r, main s = MRet r -> exists x, r = Ok x).
+Proof.
+  intros HP HS. apply par_program_ok in HP as (Ht & Hl & ->).
+  apply steps_exec in HS as (sch & _ & HE).
+  destruct (sched_no_panic_exec v w t Ht Hl sch s HE) as [H1 H2]. split; [exact H1|].
+  intros r Er. rewrite (H2 r Er), (pardot_psum v w t Ht Hl). eauto.
+Qed.
+
+(* ---- the worker count: every t >= 1 is safe for every length; t = 0 is the division panic ---- *)
+Lemma pardot_any_workers_total_lemma t (v w : list T) : 1 <= t -> length v = length w ->
+  (forall i, i < t -> exists a b, job v w t i = Ok (a, b) /\ length a = length b) /\
+  exists x, pardot t v w = Ok x.
+Proof.
+  intros Ht Hl. split.
+  - intros i Hi. exists (slice_of v t i), (slice_of w t i). split; [now apply job_ok|now apply slice_of_length_eq].
+  - rewrite (pardot_closed_form_lemma t v w Ht Hl). eauto.
+Qed.
+
+Lemma pardot_outcomes_lemma t (v w : list T) :
+  (length v <> length w -> pardot t v w = Panic Guard) /\
+  (length v = length w -> t = 0 -> pardot t v w = Panic DivZero) /\
+  (length v = length w -> 1 <= t -> exists x, pardot t v w = Ok x).
+Proof.
+  split; [|split].
+  - intros H. unfold pardot. now apply Nat.eqb_neq in H as ->.
+  - intros H ->. unfold pardot. now rewrite H, Nat.eqb_refl.
+  - intros H Ht. now apply pardot_any_workers_total_lemma.
+Qed.
+
+End Top.
